@@ -152,11 +152,18 @@ def info_cases(ctx, N):
 
 # ------------------------------------------------------------------ arguments unchanged
 
+SHAPE = ["normal"]      # set by unchanged(): "normal" | "offset" (only the constant term) | "empty"
+
 def mk(rng, kind, n=3, nterms=3):
     L = Labels("int")
-    d = rand_terms(rng, n, kind in DEG2 or kind == "dict2", nterms)
-    if not any(k for k in d):
-        d[(0,)] = 1
+    if SHAPE[0] == "offset":
+        d = {(): rng.choice([5, -2, Fraction(3, 2)])}
+    elif SHAPE[0] == "empty":
+        d = {}
+    else:
+        d = rand_terms(rng, n, kind in DEG2 or kind == "dict2", nterms)
+        if not any(k for k in d):
+            d[(0,)] = 1
     obj = dict(d) if kind.startswith("dict") else cls_of(kind)(d)
     return obj
 
@@ -273,7 +280,14 @@ def imul(x, y):
     x *= y; return x
 
 def unchanged(ctx):
+    for shape in ("normal", "offset", "empty"):
+        SHAPE[0] = shape
+        _unchanged_shape(ctx, shape)
+    SHAPE[0] = "normal"
+
+def _unchanged_shape(ctx, shape):
     for name, thunk, watch in unchanged_calls(ctx.rng):
+        name = name if shape == "normal" else name + " [" + shape + " model]"
         before = [snapshot(w, ordered=False) for w in watch]
         err = None
         try:
